@@ -158,6 +158,13 @@ static void p_exact(hostlist_t hl, int kind, const char *nm)
                 strcpy(kindbuf, "ubsan");
             else if (WIFSIGNALED(status))
                 snprintf(kindbuf, sizeof(kindbuf), "sig%d", WTERMSIG(status));
+            if (getenv("HL_PRINT_DEBUG")) {            /* keep the child's report for diagnosis */
+                FILE *df = fopen(getenv("HL_PRINT_DEBUG"), "a");
+                if (df) {
+                    fprintf(df, "---- pexact %c n=%ld status=%x kind=%s\n%.3000s\n", kind, (long) *prog, status, kindbuf, e);
+                    fclose(df);
+                }
+            }
             printf("%s%ld:%s", ncrash ? "," : "crash ", (long) *prog, kindbuf);
             ncrash++;
             start = *prog + 1;
